@@ -160,7 +160,7 @@ Proof. reflexivity. Qed.
 Lemma begin_preserves ina s t c s' : Inv ina s -> valid_tid t -> begin s t c = Some s' -> Inv ina s'.
 Proof.
   intros I V B. unfold begin in B. destruct (pcs s t) eqn:Hpc; try discriminate.
-  destruct c as [qos|floor| | |].
+  destruct c as [qos ovr|floor| | |].
   - destruct ((0 <=? qos) && (qos <? 8)) eqn:Q; [|discriminate]. injection B as <-.
     apply andb_true_iff in Q. destruct Q as [Q1 Q2]. apply Z.leb_le in Q1. apply Z.ltb_lt in Q2.
     move_tac Hpc.
@@ -275,7 +275,7 @@ Ltac bcd_auto ina s r t Hpc :=
   bcd_tac ina s r t; rewrite ?Hpc; try (intros; first [reflexivity | congruence | discriminate]).
 
 (* ---------------------------------------------------------------- dispatch_async_f *)
-Lemma step_xchg ina rb s t q s' : Inv ina s -> pcs s t = PA_xchg q -> gstep rb s t = Some s' -> Inv ina s'.
+Lemma step_xchg ina rb s t q ov s' : Inv ina s -> pcs s t = PA_xchg q ov -> gstep rb s t = Some s' -> Inv ina s'.
 Proof.
   intros [(r & A & Bv & C & D) T] Hpc B. unfold gstep in B. rewrite Hpc in B. injection B as <-.
   assert (NL : lockh s <> Some t) by (apply (not_holder_lock s t (T t)); rewrite Hpc; reflexivity).
@@ -283,7 +283,7 @@ Proof.
   destruct (T t) as (T1 & T2 & T3 & T4 & T5 & T6 & T7 & T8 & T9). rewrite Hpc in *.
   assert (NW : ~ In t (wakers s)) by (intros Hin; apply T2 in Hin; discriminate).
   set (we := match lst s with [] => true | _ => false end).
-  assert (P : forall w, lockh s = Some w -> upd (pcs s) t (PA_link (nextid s) we q) w = pcs s w).
+  assert (P : forall w, lockh s = Some w -> upd (pcs s) t (PA_link (nextid s) we q ov) w = pcs s w).
   { intros w E. apply upd_other. congruence. }
   split.
   - exists r. split.
@@ -307,7 +307,7 @@ Proof.
       subst we. destruct (lst s); [apply in_cons_other; exact N | tauto].
 Qed.
 
-Lemma step_link ina rb s t i we q s' : Inv ina s -> pcs s t = PA_link i we q -> gstep rb s t = Some s' -> Inv ina s'.
+Lemma step_link ina rb s t i we q ov s' : Inv ina s -> pcs s t = PA_link i we q ov -> gstep rb s t = Some s' -> Inv ina s'.
 Proof.
   intros I Hpc B. unfold gstep in B. rewrite Hpc in B. injection B as <-.
   assert (I1 : Inv ina (set_lst s (link_id (lst s) i))).
@@ -320,8 +320,8 @@ Proof.
     - apply (cinv_ext s _ r C); reflexivity.
     - apply (dinv_ext ina s _ r D); reflexivity. }
   pose proof (qos_in_range ina s t q I) as Q. rewrite Hpc in Q. specialize (Q eq_refl).
-  move_tac Hpc; destruct we; try reflexivity; try discriminate; try (left; reflexivity).
-  intros q0 X. injection X as <-. exact Q.
+  move_tac Hpc; destruct we; try destruct ov; try reflexivity; try discriminate; try (left; reflexivity);
+    try (intros q0 X; injection X as <-; exact Q).
 Qed.
 
 Lemma step_probe ina rb s t q s' : Inv ina s -> pcs s t = PA_probe q -> gstep rb s t = Some s' -> Inv ina s'.
@@ -786,6 +786,80 @@ Proof.
       * intros H. specialize (Cn H). unfold lic_now in *. sproj_in Cn. sproj. exact Cn.
       * eapply (dinv_step ina s _ r _ t _ D); sproj; rewrite ?Hpc; try reflexivity; try discriminate.
         intros X [X1 _]. split; [exact X1 | reflexivity].
+    + intros u. destruct (Z.eq_dec u t) as [->|N].
+      * self_inv T t Hpc.
+      * apply (thread_other s _ t u N (T u)); sproj; [apply upd_other; exact N | try other_iffs N ..].
+Qed.
+
+(* ---------------------------------------------------------------- the need_override wakeup of a push (no MAKE_DIRTY) *)
+Lemma step_pr_probe ina rb s t q s' : Inv ina s -> pcs s t = PR_probe q -> gstep rb s t = Some s' -> Inv ina s'.
+Proof.
+  intros I Hpc B. unfold gstep in B. rewrite Hpc in B. injection B as <-.
+  pose proof (qos_in_range ina s t q I) as Q. rewrite Hpc in Q. specialize (Q eq_refl).
+  destruct (lst s) eqn:L; move_tac Hpc.
+Qed.
+
+Lemma step_pr_wake ina rb s t q s' : Inv ina s -> valid_tid t -> pcs s t = PR_wake q -> gstep rb s t = Some s' -> Inv ina s'.
+Proof.
+  intros I Vt Hpc B. pose proof I as [(r & A & Bv & C & D) T]. unfold gstep in B. rewrite Hpc in B.
+  assert (NL : lockh s <> Some t) by (apply (not_holder_lock s t (T t)); rewrite Hpc; reflexivity).
+  assert (NK : token s <> Some (Some t)) by (apply (not_holder_token s t (T t)); rewrite Hpc; reflexivity).
+  pose proof (qos_in_range ina s t q I) as Q. rewrite Hpc in Q. specialize (Q eq_refl).
+  pose proof A as A'. dA A'. pose proof Gwf as W. unfold wfr in W.
+  rewrite Genc in B. unfold ENQUEUED in B.
+  rewrite (wakeup_fields_plain r q 1 1 Gwf Q eq_refl) in B. cbv zeta in B.
+  pose proof (merged_wf r q Gwf Q) as Wm. unfold wfr in Wm.
+  destruct (merged_same r q) as (M1 & M2 & M3 & M4 & M5 & M6 & M7 & M8 & M9 & M10).
+  set (m := merged r q) in *.
+  set (e' := if can_enqueue r then 1 else f_enq m) in *.
+  assert (He' : 0 <= e' < 2) by (subst e'; destruct (can_enqueue r); lia).
+  set (r' := mk (f_owner m) (f_tr m) e' (f_mq m) (f_ov m) (f_role m) (f_em m) (f_d m) (f_pb m) (f_wq m) (f_ib m) (f_hi m)) in *.
+  assert (W' : wfr r') by (subst r'; apply wfr_mk; lia).
+  destruct (enc r' =? enc r); injection B as <-; [move_tac Hpc|].
+  change (negb (Z.land (Z.lxor (enc r) (enc r')) 2147483648 =? 0)) with (nz (Z.land (Z.lxor (enc r) (enc r')) 2147483648)).
+  rewrite (xor_enqueued r r' Gwf W').
+  assert (Fr : f_owner r' = f_owner r /\ f_ib r' = f_ib r /\ f_wq r' = f_wq r /\ f_enq r' = e' /\ f_d r' = f_d r /\
+               f_tr r' = 0 /\ f_em r' = 0 /\ f_pb r' = 0 /\ f_hi r' = f_hi r /\ f_role r' = f_role r).
+  { subst r'. unfold mk; cbn. repeat split; congruence. }
+  destruct Fr as (F1 & F2 & F3 & F4 & F5 & F6 & F7 & F8 & F9 & F10).
+  assert (P : forall p w, lockh s = Some w -> upd (pcs s) t p w = pcs s w).
+  { intros p w E. apply upd_other. congruence. }
+  assert (Lk : match lockh s with Some w => valid_tid w /\ held r' w | None => free r' end).
+  { unfold held, free in *. rewrite F1, F2, F3. exact Glock. }
+  destruct (can_enqueue r) eqn:CE.
+  - (* the override wakeup takes the enqueued token and will push the lane on its target *)
+    unfold can_enqueue in CE. rewrite !andb_true_iff in CE. destruct CE as [[[C1 C2] C3] C4].
+    apply Z.eqb_eq in C1, C2.
+    assert (Tk : token s = None).
+    { destruct (token s) eqn:E; [|reflexivity]. assert (f_enq r = 1) by (apply Genq; congruence). lia. }
+    assert (O : f_owner r = 0).
+    { apply orb_true_iff in C4. destruct C4 as [C4|C4]; [apply Z.eqb_eq in C4; exact C4 | apply Z.leb_le in C4; lia]. }
+    pose proof (lockh_none_of_free s r A O) as LN.
+    rewrite F4, C2. subst e'. cbn [Z.eqb xorb]. split.
+    + exists r'. split.
+      * unfold inflight in *. rewrite LN in *. constructor; sproj; try assumption; try lia.
+        -- rewrite F4. split; [discriminate | reflexivity].
+        -- rewrite Grootq, Tk. reflexivity.
+        -- rewrite LN. exact Lk.
+        -- intros _. left. discriminate.
+        -- rewrite LN. discriminate.
+        -- unfold inflight; sproj. rewrite LN. exact Gorder.
+        -- rewrite LN. exact Grunning.
+      * bcd_auto ina s r t Hpc.
+    + intros u. destruct (Z.eq_dec u t) as [->|N].
+      * self_inv T t Hpc.
+      * apply (thread_other s _ t u N (T u)); sproj; [apply upd_other; exact N | try other_iffs N ..].
+  - (* only the max-qos merge *)
+    assert (Ee : f_enq r' = f_enq r) by (rewrite F4; subst e'; exact M3).
+    rewrite Ee. rewrite xorb_nilpotent. split.
+    + exists r'. split.
+      * unfold inflight in *. constructor; sproj; try assumption; try lia.
+        -- rewrite Ee. exact Genq.
+        -- intros Hl. destruct (Gnostrand Hl) as [X|[X|[X|X]]]; auto. right; right; right. lia.
+        -- intros w E. rewrite P by exact E. intros Hu Hl Hw. rewrite F5, F9. apply (Gdirty w); auto.
+        -- unfold inflight; sproj. destruct (lockh s) as [w|]; auto. rewrite P by reflexivity. exact Gorder.
+        -- destruct (lockh s) as [w|]; auto. rewrite P by reflexivity. exact Grunning.
+      * bcd_auto ina s r t Hpc.
     + intros u. destruct (Z.eq_dec u t) as [->|N].
       * self_inv T t Hpc.
       * apply (thread_other s _ t u N (T u)); sproj; [apply upd_other; exact N | try other_iffs N ..].
